@@ -322,3 +322,48 @@ func Order[K comparable, V any](m map[K]V) []K {
 	}
 	return Permute(keys, choose(n, NumAlts(n)))
 }
+
+// ---------------------------------------------------------------- MSI snapshots
+//
+// Plain data exported by the verif-only snapshot / rig files that /verif adds
+// to mvp7-0, mvp7-1 and mvp8-0 through the overlay.
+
+type MSILine struct {
+	Base int32
+	Data []int8 // not copied: valid until the next simulated cycle
+}
+
+type MSIState struct {
+	Core  int
+	Line  int32
+	State int32 // 0 invalid, 1 shared, 2 modified
+}
+
+type MSICommand struct {
+	Core    int
+	Line    int32
+	Request int32
+}
+
+type MSISem struct {
+	Line        int32
+	Read, Write int
+}
+
+type MSISnap struct {
+	Cores      int
+	LineSize   int32
+	States     []MSIState
+	Commands   []MSICommand
+	Sems       []MSISem
+	Held       [][]int32   // per core: lines whose lock this core's controller currently holds
+	L1         [][]MSILine // per core, MRU first
+	L3         []MSILine   // MVP-8 only
+	L3LineSize int32
+	Memory     []int8 // the context's memory (not copied)
+}
+
+// MSISnapshotter is implemented by the CPUs of the MSI variants in verif builds.
+type MSISnapshotter interface {
+	VerifSnapshot() MSISnap
+}
